@@ -114,8 +114,16 @@ def verify_one(job):
             # a long function is verified by several workers: each one executes it symbolically and discharges its share
             k_, n_ = job["part"]
             split = [ob for idx_, ob in enumerate(split) if idx_ % n_ == k_]
+        failed = 0
         for ob in split:
-            r = smt.discharge(ob, axioms, timeout)
+            if failed >= 2:
+                # the function already fails several obligations (it is undecided / violated whatever the rest says): the remaining
+                # ones are not attempted (reported as unknown)
+                r = {"status": "unknown", "time": 0.0, "backend": "not attempted: two obligations of this function already failed", "model": None, "reason": "skipped"}
+            else:
+                r = smt.discharge(ob, axioms, timeout)
+            if r["status"] != "proved" and ob.name not in job.get("known_obligations", ()):
+                failed += 1
             rec = {"name": ob.name, "kind": ob.kind, "status": r["status"], "time": round(r["time"], 3), "backend": r["backend"],
                    "lineno": ob.lineno, "clause": ob.extra.get("clause", ""), "exc": ob.extra.get("exc"), "reason": r.get("reason", "")}
             if r["model"] is not None:
